@@ -1,0 +1,11 @@
+//go:build verif
+
+package diff
+
+import "sync/atomic"
+
+// VerifEquivCount counts calls of the zipper's instruction-equivalence routine.
+// Only compiled with the "verif" build tag.
+var VerifEquivCount atomic.Int64
+
+func verifCountEquiv() { VerifEquivCount.Add(1) }
